@@ -398,7 +398,7 @@ def match_rows(ref_rows, got_rows):
   return np.array(out)
 
 
-def judge_sensor(rec, mjm, i, got, ref, noise, coarse, gated, struct_ok, constrained, sib, mjd, raw, ctx):
+def judge_sensor(rec, mjm, i, got, ref, noise, coarse, gated, struct_ok, constrained, sib, mjd, raw, cond_M, ctx):
   """Verdict for sensor i. got/ref/noise/coarse: full sensordata-sized arrays."""
   t = int(mjm.sensor_type[i])
   name = ST.get(t, str(t))
@@ -420,7 +420,7 @@ def judge_sensor(rec, mjm, i, got, ref, noise, coarse, gated, struct_ok, constra
       rec.count("sensor_ungated")
       rec.count("ungated:" + name)
       return "ungated"
-    allow = A_ACC_CON if constrained else A_ACC_FREE
+    allow = A_ACC_CON if constrained else max(A_ACC_FREE, 3e-7 * cond_M)  # float32 solve error grows with cond(M)
   elif t in DISTFAM:
     allow = A_DIST
   elif stage == 1:
@@ -639,13 +639,20 @@ def run_case(case):
   for w in range(nworld):
     st = states[w]
     ctx = f"world {w}"
-    ref, noise, mjd = reference_el(mjm, st, mujoco.mj_forward, extract, seed=case["seed"] + w)
+    try:
+      ref, noise, mjd = reference_el(mjm, st, mujoco.mj_forward, extract, seed=case["seed"] + w)
+    except mujoco.FatalError as e:  # e.g. "rank-deficient sparse Hessian": MuJoCo has no answer for this state
+      rec.inconcl(f"MuJoCo fatal error on the reference: {e}"[:150])
+      rec.count("reference_fatal_error")
+      continue
     rs = ref["struct"]
     constrained = rs[0] > 0 or nefc[w] > 0
     # ---- gating rule
     gated = True
     why = None
-    if mjm.nv and np.linalg.eigvalsh(mw.dense_M(mjm, mjd.M))[0] <= 1e-9 * float(np.abs(mjd.M).max()):
+    evM = np.linalg.eigvalsh(mw.dense_M(mjm, mjd.M)) if mjm.nv else np.ones(1)
+    cond_M = float(evM[-1] / max(evM[0], 1e-300))
+    if evM[0] <= 1e-9 * evM[-1]:
       gated, why = False, "singular inertia matrix"
     elif np.any(noise["struct"] > 0):
       gated, why = False, "reference structure unstable under ulp probe"
@@ -653,6 +660,8 @@ def run_case(case):
       gated, why = False, "constraint counts differ"
     elif rs[5] > 0 or niter[w] >= mjm.opt.iterations:
       gated, why = False, "iteration limit reached"
+    elif rs[0] > 0 and float(np.abs(mjd.efc_force).max()) > 1e6 * max(1.0, float(np.abs(mjd.qfrc_smooth).max())):
+      gated, why = False, "degenerate constraint forces in the reference"
     elif ovf[w]:
       gated, why = False, "overflow flag"
     elif rs[4] > 0 or kind in ("scene", "tactile"):
@@ -669,7 +678,13 @@ def run_case(case):
       b = sorted(zip(mjd.efc_type[:n].tolist(), mjd.efc_id[:n].tolist()))
       if [x[0] for x in a] != [x[0] for x in b] or sorted(x for x in a if x[0] < 5) != sorted(x for x in b if x[0] < 5):
         gated, why = False, "constraint row types/ids differ"
-    struct_ok = gated or why == "iteration limit reached"
+    if gated and rs[0] > 0:
+      # sensors are functions of efc_force: they are judged given equal inputs (solver/assembly agreement is C05/C06's subject)
+      n = int(rs[0])
+      fa, fb = np.sort(mw.npy(d.efc.force)[w][:n].astype(np.float64)), np.sort(np.array(mjd.efc_force[:n]))
+      if np.abs(fa - fb).max() > 1e-2 * max(1.0, float(np.abs(fb).max())):
+        gated, why = False, "efc_force differs between the engines"
+    struct_ok = gated or why in ("iteration limit reached", "efc_force differs between the engines")
     rec.count("worlds")
     if constrained:
       rec.count("worlds_constrained")
@@ -718,7 +733,7 @@ def run_case(case):
         sibs[names[i][:-4]] = sibling_info(mjm, i, ref["sensordata"])
     for i in range(mjm.nsensor):
       t = int(mjm.sensor_type[i])
-      res = judge_sensor(rec, mjm, i, got_sd[w], ref["sensordata"], noise["sensordata"], coarse, gated, struct_ok, constrained, sibs.get(names[i]), mjd, raw, ctx + f" sensor {i} ({names[i]})")
+      res = judge_sensor(rec, mjm, i, got_sd[w], ref["sensordata"], noise["sensordata"], coarse, gated, struct_ok, constrained, sibs.get(names[i]), mjd, raw, cond_M, ctx + f" sensor {i} ({names[i]})")
       a, n = int(mjm.sensor_adr[i]), int(mjm.sensor_dim[i])
       r = ref["sensordata"][a : a + n]
       if res == "ok":
